@@ -155,3 +155,14 @@
 (declare-fun fileModTimeId (Iface) Int)   ; identity of the ModTime() value (times are opaque here)
 (define-fun imod ((a Int) (b Int)) Int (mod a b))
 (declare-fun readlinkOf (String) String)   ; os.Readlink: the target stored in the link
+
+; ---- bundle builder: content hash naming ----
+(declare-fun hashDirOf (String) String)         ; dirhash.HashDir(dir, "", Hash1): "h1:" + base64(sha256)
+(declare-fun b64StdDecLen (String) Int)         ; length of the decoding of a standard-base64 string
+(declare-fun b64UrlOfStd (String) String)       ; RawURLEncoding.EncodeToString(StdEncoding.DecodeString(s))
+(define-fun isB64Url ((s String)) Bool (str.in_re s (re.+ (re.union (re.range "a" "z") (re.range "A" "Z") (re.range "0" "9") (str.to_re "-") (str.to_re "_")))))
+(define-fun trimPrefix ((s String) (p String)) String (ite (str.prefixof p s) (str.substr s (str.len p) (- (str.len s) (str.len p))) s))
+; ---- diagnostics as opaque values (pure getters) ----
+(declare-fun diagSeverity (Iface) Int)
+(declare-fun diagDescId (Iface) Int)
+(declare-fun diagExtra (Iface) Iface)
